@@ -382,4 +382,9 @@ AllDone == \A w \in W : pc[w] = "done"
 Completed == AllDone => \A f \in FlatLeaves : \A t \in {x \in Closure[f] : f \in Setup[x]} :
                             (NumRes(results, t) > 0 /\ "UNKNOWN" \notin AllStat(results, t)) \/ (t \in Stateful /\ \E w \in W : Present(pool, t, w))
 BounceBound == \A w \in W : nb[w] <= MaxBounce
+\* ---- liveness (C02): no coroutine keeps the event loop for ever. Everything a worker does between two awaits is one
+\* uninterrupted run of steps with turn = w; a cycle among such steps would be an await-free endless loop that hangs all
+\* workers (the postponed cleanup and the retry of a node both jump back without awaiting).
+LiveSpec == Spec /\ WF_vars(Next)
+NoSpin == \A w \in W : []<>(turn # w)
 =============================================================================
